@@ -237,66 +237,85 @@ func runC04(p *core.Prog, r *core.Report, tier string) {
 		r.Hold("C04.i", "working-arrays-per-run", "", "no slice handed to the signer or a helper of the attester is held in a field of the service")
 	}
 
-	// (j) the per-validator arrays are filled for every account: in a loop that stores into several of them at the loop
-	// index, every pass performs all of those stores (a pass that skips one leaves a zero — position 0, committee 0 —
-	// for an account that is still signed for and submitted)
+	// (j) the per-validator arrays are filled together: in a loop that fills several local arrays — by stores at the
+	// loop index or by appends — no pass fills one of them and leaves out another (with pre-sized arrays: no pass leaves
+	// one out at all); a pass that skips one leaves a zero, or shifts every later entry against its neighbours, for
+	// accounts that are still signed for and submitted
 	nFill := 0
 	for _, f := range p.FuncsIn(attRel) {
 		type fill struct {
-			st   *ssa.Store
-			coll ssa.Value
+			in      ssa.Instruction
+			coll    ssa.Value // the make the array comes from
+			indexed bool
 		}
-		byIdx := map[ssa.Value][]fill{}
+		loops := naturalLoops(f)
+		byLoop := map[*ssa.BasicBlock][]fill{}
 		core.EachInstr(f, func(in ssa.Instruction) {
-			st, ok := in.(*ssa.Store)
-			if !ok {
+			var fl fill
+			switch x := in.(type) {
+			case *ssa.Store:
+				ia, ok := x.Addr.(*ssa.IndexAddr)
+				if !ok {
+					return
+				}
+				mk, isLocal := ia.X.(*ssa.MakeSlice)
+				if !isLocal {
+					return
+				}
+				if _, ok := core.RangeIndex(ia.Index); !ok {
+					return
+				}
+				fl = fill{in, mk, true}
+			case *ssa.Call:
+				b, ok := x.Call.Value.(*ssa.Builtin)
+				if !ok || b.Name() != "append" || len(x.Call.Args) != 2 {
+					return
+				}
+				mk := localSliceRoot(x.Call.Args[0])
+				if mk == nil {
+					return
+				}
+				fl = fill{in, mk, false}
+			default:
 				return
 			}
-			ia, ok := st.Addr.(*ssa.IndexAddr)
-			if !ok {
-				return
+			if h := innermostLoop(loops, in.Block()); h != nil {
+				byLoop[h] = append(byLoop[h], fl)
 			}
-			if _, isLocal := ia.X.(*ssa.MakeSlice); !isLocal {
-				return
-			}
-			if _, ok := core.RangeIndex(ia.Index); !ok {
-				return
-			}
-			byIdx[ia.Index] = append(byIdx[ia.Index], fill{st, ia.X})
 		})
-		for idx, fills := range byIdx {
-			if len(fills) < 2 {
+		for header, fills := range byLoop {
+			colls := map[ssa.Value]bool{}
+			for _, fl := range fills {
+				colls[fl.coll] = true
+			}
+			if len(colls) < 2 {
 				continue
 			}
-			_ = idx
 			for _, fl := range fills {
 				nFill++
-				// the loop header: the block of the index phi
-				var header *ssa.BasicBlock
-				for _, h := range f.Blocks {
-					if !h.Dominates(fl.st.Block()) {
-						continue
-					}
-					back := false
-					for _, pr := range h.Preds {
-						if h.Dominates(pr) {
-							back = true
+				var w []ssa.Instruction
+				avoid := func(x ssa.Instruction) bool { return x == fl.in }
+				if fl.indexed {
+					w = core.PathQuery{Fn: f, From: header.Instrs[len(header.Instrs)-1], Target: func(x ssa.Instruction) bool { return x.Block() == header }, Avoid: avoid}.Find()
+				} else {
+					// a pass that performs another fill of the loop but not this one
+					for _, other := range fills {
+						if other.coll == fl.coll || w != nil {
+							continue
+						}
+						pre := core.PathQuery{Fn: f, From: header.Instrs[len(header.Instrs)-1], Target: func(x ssa.Instruction) bool { return x == other.in }, Avoid: func(x ssa.Instruction) bool { return x == fl.in || x.Block() == header }}.Find()
+						post := core.PathQuery{Fn: f, From: other.in, Target: func(x ssa.Instruction) bool { return x.Block() == header }, Avoid: avoid}.Find()
+						if pre != nil && post != nil {
+							w = append(pre, post...)
 						}
 					}
-					if back && (header == nil || header.Dominates(h)) {
-						header = h
-					}
 				}
-				if header == nil {
-					continue
-				}
-				w := core.PathQuery{Fn: f, From: header.Instrs[len(header.Instrs)-1], Target: func(x ssa.Instruction) bool { return x.Block() == header }, Avoid: func(x ssa.Instruction) bool { return x == ssa.Instruction(fl.st) }}.Find()
-				r.Check(w == nil, "C04.j", fmt.Sprintf("%s|filled-on-every-pass|%s#%d", core.FnKey(f), ds.D(fl.coll).String(), nFill), p.Pos(fl.st.Pos()), "every pass of the loop stores this array's element",
-					"a pass of the loop can end without storing this array's element (a `continue` before the store): the account of that pass keeps the zero value — position 0 or committee 0 — and is still signed for and submitted with it", p.WitnessText(w)...)
+				r.Check(w == nil, "C04.j", fmt.Sprintf("%s|filled-on-every-pass|%s#%d", core.FnKey(f), ds.D(fl.coll).String(), nFill), p.Pos(fl.in.Pos()), "every pass of the loop that fills the per-validator arrays fills this one",
+					"a pass of the loop can fill the other per-validator arrays without this one (a `continue` before it): the account of that pass keeps a zero — position 0 or committee 0 — or every later entry is shifted against its neighbours, and the account is still signed for and submitted", p.WitnessText(w)...)
 			}
 		}
 	}
-	r.Floor("C04.j per-validator array stores in loops", nFill, 3)
+	r.Floor("C04.j fills of per-validator arrays in loops", nFill, 3)
 
 	// (f) what is signed is what is submitted: the sign call and the constructor call in the same function share argument values
 	for _, f := range p.FuncsIn(attRel) {
@@ -545,4 +564,86 @@ func checkArrayOrigin(p *core.Prog, r *core.Report, ds *core.Describer, f *ssa.F
 		r.Check(ok, "C04.c", construct, pos, what+" array is filled from duty."+accessor[strings.Index(accessor, ".")+1:]+"()",
 			what+" array ("+param+") is not filled from "+accessor+"(): "+strings.Join(seen, "; "))
 	}
+}
+
+// naturalLoops: loop header -> blocks of the natural loop (the header and every block that reaches a back edge to it
+// without passing through it).
+func naturalLoops(f *ssa.Function) map[*ssa.BasicBlock]map[*ssa.BasicBlock]bool {
+	out := map[*ssa.BasicBlock]map[*ssa.BasicBlock]bool{}
+	for _, h := range f.Blocks {
+		for _, pr := range h.Preds {
+			if !h.Dominates(pr) {
+				continue
+			}
+			body := out[h]
+			if body == nil {
+				body = map[*ssa.BasicBlock]bool{h: true}
+				out[h] = body
+			}
+			var mark func(b *ssa.BasicBlock)
+			mark = func(b *ssa.BasicBlock) {
+				if body[b] {
+					return
+				}
+				body[b] = true
+				for _, q := range b.Preds {
+					mark(q)
+				}
+			}
+			mark(pr)
+		}
+	}
+	return out
+}
+
+// innermostLoop: the header of the smallest natural loop that contains b (nil when b is in no loop).
+func innermostLoop(loops map[*ssa.BasicBlock]map[*ssa.BasicBlock]bool, b *ssa.BasicBlock) *ssa.BasicBlock {
+	var best *ssa.BasicBlock
+	for h, body := range loops {
+		if body[b] && (best == nil || len(body) < len(loops[best])) {
+			best = h
+		}
+	}
+	return best
+}
+
+// localSliceRoot follows an appended-to slice value back through loop phis and earlier appends to the make it
+// started from (nil when it started anywhere else).
+func localSliceRoot(v ssa.Value) *ssa.MakeSlice {
+	seen := map[ssa.Value]bool{}
+	var mk *ssa.MakeSlice
+	ok := true
+	var walk func(v ssa.Value)
+	walk = func(v ssa.Value) {
+		if seen[v] || !ok {
+			return
+		}
+		seen[v] = true
+		switch x := v.(type) {
+		case *ssa.MakeSlice:
+			if mk != nil && mk != x {
+				ok = false
+			}
+			mk = x
+		case *ssa.Phi:
+			for _, e := range x.Edges {
+				walk(e)
+			}
+		case *ssa.Call:
+			if b, isB := x.Call.Value.(*ssa.Builtin); isB && b.Name() == "append" {
+				walk(x.Call.Args[0])
+			} else {
+				ok = false
+			}
+		case *ssa.Slice:
+			walk(x.X)
+		default:
+			ok = false
+		}
+	}
+	walk(v)
+	if !ok {
+		return nil
+	}
+	return mk
 }
